@@ -648,3 +648,209 @@ def decide_object_schema(facts, fn, validation_adt="schemars::schema::ObjectVali
         raise A.LeavesFragment("the schema differs between paths")
     req, props, itypes = outs.pop()
     return {"required": set(req), "properties": set(props), "instance_types": set(itypes)}
+
+
+# ----------------------------------------------------------------------------- the merge of the members' extension modes, by interpretation
+class Panics(Exception):
+    """The interpreted function diverged through a panic (an outcome, not a failure of the analysis)."""
+
+
+_PANIC_CALL = re.compile(r"^(core|std)::(panicking::\w+|rt::(panic_fmt|begin_panic\w*|panic_display|panic_explicit)|option::(unwrap_failed|expect_failed)|result::unwrap_failed)(::<.*>)?$")
+_VEC_NEW = re.compile(r"^(std|alloc)::vec::Vec::<.*>::(new|with_capacity)$")
+_VEC_APPEND = re.compile(r"^(std|alloc)::vec::Vec::<.*>::append$")
+_EXTEND = re.compile(r"^std::iter::Extend::extend$|^(std|alloc)::vec::Vec::<.*>::extend$")
+_MEM = re.compile(r"^(std|core)::mem::(replace|swap|take)$")
+PAYLOAD = "mode-payload:"
+
+
+def _s_into_iter_or_self(interp, argv, t):
+    d = interp.deref_all(argv[0])
+    if d is not None and d[0] == "struct" and d[1] == "#iter":
+        return d
+    return _s_into_iter(interp, argv, t)
+
+
+def _as_iter_ref(interp, v):
+    d = interp.deref_all(v)
+    if d is None or d[0] != "struct" or d[1] != "#iter":
+        raise A.LeavesFragment("not a modelled iterator")
+    return v if v[0] == "ref" else A.V_ref(A.Cell(d))
+
+
+def _s_fold(interp, argv, t):
+    it = _as_iter_ref(interp, argv[0])
+    acc = argv[1]
+    while True:
+        x = _iter_next(interp, it)
+        if x is None:
+            return acc
+        acc = interp.call_closure(argv[2], acc, x)
+
+
+def _s_for_each(interp, argv, t):
+    it = _as_iter_ref(interp, argv[0])
+    while True:
+        x = _iter_next(interp, it)
+        if x is None:
+            return ("zst", None)
+        interp.call_closure(argv[1], x)
+
+
+class MergeInterp(SchemaInterp):
+    """SchemaInterp for a function that calls the `metadata()` of a tuple's members and combines what they return.  A member's metadata —
+    called directly, or through a function item / function pointer that travelled through a list, a fold or a helper — is a stub
+    (`stub(Self type)` -> value); a panic ends the run with `Panics`; `==` / `!=` between two values of a modelled enum is structural, the
+    payload of a variant being an opaque token that equals itself only; Vec::new / append / extend move list elements; a fold / for_each /
+    for loop over an array literal runs its body once per element."""
+
+    def __init__(self, facts, member_rx, self_of, stub, choices=()):
+        SchemaInterp.__init__(self, facts, choices)
+        self.member_rx = re.compile(member_rx)
+        self.self_of = self_of
+        self.stub = stub
+        self.stub_calls = []
+        self.summaries["std::iter::Iterator::fold"] = _s_fold
+        self.summaries["std::iter::Iterator::for_each"] = _s_for_each
+        self.summaries["std::iter::IntoIterator::into_iter"] = _s_into_iter_or_self
+
+    def operand(self, frame, op):
+        if op.get("k") == "const" and op.get("fn"):
+            return ("zst", op["fn"], op.get("fn_args"))
+        return SchemaInterp.operand(self, frame, op)
+
+    def _member(self, self_ty):
+        self.stub_calls.append(self_ty)
+        return self.stub(self_ty)
+
+    def _modelled_enum(self, v, depth=0):
+        """A value made of enum variants whose payloads are the opaque tokens of the model (nothing unknown inside)."""
+        v = self.deref_all(v)
+        if v is None or depth > 6:
+            return False
+        if v[0] == "enum":
+            return all(self._modelled_enum(x, depth + 1) for x in v[4])
+        if v[0] == "tuple":
+            return all(self._modelled_enum(x, depth + 1) for x in v[1])
+        return v[0] == "opaque" and str(v[1]).startswith(PAYLOAD)
+
+    def do_call(self, fn, frame, t, bb):
+        callee = t.get("callee")
+        res = t.get("resolved") or ""
+        if callee is None and t.get("callee_op"):
+            v = self.deref_all(self.operand(frame, t["callee_op"]))
+            if v is None or v[0] != "zst" or not v[1]:
+                raise A.LeavesFragment("indirect call of a value that is not a known function item at %s bb%d" % (fn.id, bb))
+            argv = [self.operand(frame, a) for a in t["args"]]
+            if self.member_rx.search(v[1]):
+                return self._member(self.self_of({"callee_args": v[2] if len(v) > 2 else None}))
+            if v[1] in self.facts.F:
+                return self.call_fn(self.facts.F[v[1]], argv)
+            raise A.LeavesFragment("indirect call of %s at %s bb%d" % (v[1], fn.id, bb))
+        callee = callee or ""
+        if "to" not in t:
+            if _PANIC_CALL.match(callee):
+                raise Panics(callee)
+            raise A.LeavesFragment("diverging call of %s at %s bb%d" % (callee, fn.id, bb))
+        if self.member_rx.search(callee):
+            return self._member(self.self_of(t))
+        m = A.CMP_RX.match(callee)
+        if m and m.group(1) in ("eq", "ne") and len(t["args"]) == 2:
+            a, b = [self.deref_all(self.operand(frame, x)) for x in t["args"]]
+            if a is not None and b is not None and a[0] == "enum" and b[0] == "enum" and a[1] == b[1] and (a[4] or b[4]):
+                if not (self._modelled_enum(a) and self._modelled_enum(b)):
+                    raise A.LeavesFragment("comparison of enum values with unmodelled payloads at %s bb%d" % (fn.id, bb))
+                return A.V_bool((A.strip(a) == A.strip(b)) == (m.group(1) == "eq"))
+        if callee == "std::default::Default::default" and res in self.facts.F:
+            return self.call_fn(self.facts.F[res], [])
+        if _VEC_NEW.match(callee):
+            return _coll()
+        if _VEC_APPEND.match(callee) and len(t["args"]) == 2:
+            dst, src = [self.operand(frame, x) for x in t["args"]]
+            items = self.coll_items(src)
+            self.coll_items(dst).extend(items)
+            del items[:]
+            return ("zst", None)
+        if _EXTEND.match(callee) and len(t["args"]) == 2:
+            dst, src = [self.operand(frame, x) for x in t["args"]]
+            d = self.deref_all(src)
+            if d is not None and d[0] == "struct" and d[1] == "#coll":
+                self.coll_items(dst).extend(list(d[2][0][1]))
+                return ("zst", None)
+        mm = _MEM.match(callee)
+        if mm:
+            argv = [self.operand(frame, x) for x in t["args"]]
+            if any(x is None or x[0] != "ref" for x in argv[:1] + (argv[1:] if mm.group(2) == "swap" else [])):
+                raise A.LeavesFragment("mem::%s of something that is not a reference" % mm.group(2))
+            old = A.read_path(argv[0][1], argv[0][2])
+            if mm.group(2) == "replace":
+                A.write_path(argv[0][1], argv[0][2], argv[1])
+                return old
+            if mm.group(2) == "swap":
+                A.write_path(argv[0][1], argv[0][2], A.read_path(argv[1][1], argv[1][2]))
+                A.write_path(argv[1][1], argv[1][2], old)
+                return ("zst", None)
+            if old is not None and old[0] == "struct" and old[1] == "#coll":
+                A.write_path(argv[0][1], argv[0][2], _coll())
+                return old
+            dflt = [g for g in t.get("gargs") or [] if not g.startswith("'")]
+            impl = "<%s as std::default::Default>::default" % dflt[0] if dflt else None
+            if impl in self.facts.F:
+                A.write_path(argv[0][1], argv[0][2], self.call_fn(self.facts.F[impl], []))
+                return old
+            raise A.LeavesFragment("mem::take of a value whose default is not modelled")
+        return SchemaInterp.do_call(self, fn, frame, t, bb)
+
+
+def mode_values(facts, mode_adt):
+    """The values a member's extension mode is drawn from: every field-less variant once; a variant with a payload twice, with two
+    different payload tokens (so that `same variant, same payload` and `same variant, other payload` both occur).  [(label, value maker)]"""
+    a = facts.adts.get(mode_adt)
+    if not a or a.get("kind") == "struct":
+        raise A.LeavesFragment("%s is not an enum" % mode_adt)
+    out = []
+    for i, v in enumerate(a["variants"]):
+        nf = len(v.get("fields") or [])
+        for tok in (["a", "b"] if nf else [None]):
+            label = v["name"] if tok is None else "%s(%s)" % (v["name"], tok)
+            out.append((label, (lambda i=i, v=v, nf=nf, tok=tok: A.V_enum(mode_adt, i, v["name"], [A.V_opaque("%s%s%d" % (PAYLOAD, tok, k)) for k in range(nf)]))))
+    return out
+
+
+def decide_mode_merge(facts, md, members, member_rx, self_of, meta_adt, mode_adt, mode_field="extension_mode"):
+    """Interpret `md` (a tuple's metadata()) once for every assignment of a mode value to every member.  Returns
+    [(assignment {member: label}, {member: stripped value}, set of outcomes)], an outcome being "panics" or ("returns", stripped mode of the
+    returned metadata).  Raises absint.LeavesFragment when some run leaves the modelled fragment (callers fail closed)."""
+    a = facts.adts.get(meta_adt)
+    if not a or a.get("kind") != "struct":
+        raise A.LeavesFragment("%s is not a struct" % meta_adt)
+    names = [f["name"] for f in a["variants"][0]["fields"]]
+    if mode_field not in names:
+        raise A.LeavesFragment("%s has no field %s" % (meta_adt, mode_field))
+    values = mode_values(facts, mode_adt)
+    out = []
+    import itertools
+    for combo in itertools.product(range(len(values)), repeat=len(members)):
+        assign = {m: values[c] for m, c in zip(members, combo)}
+
+        def stub(self_ty):
+            if self_ty not in assign:
+                raise A.LeavesFragment("metadata() of %s, which is not a member of the tuple, is called" % self_ty)
+            return A.V_struct(meta_adt, [assign[self_ty][1]() if n == mode_field else
+                                         (_coll([A.V_opaque("parameter-of:%s" % self_ty)]) if _COLL_TY.match(f["ty"]) else A.V_opaque("%s-of:%s" % (n, self_ty)))
+                                         for n, f in zip(names, a["variants"][0]["fields"])])
+
+        def run(ch):
+            it = MergeInterp(facts, member_rx, self_of, stub, ch)
+            try:
+                r = it.deref_all(it.call_fn(md, [A.V_opaque("content-type")] * md.argc))
+            except Panics:
+                return it, "panics"
+            if r is None or r[0] != "struct" or r[1] != meta_adt:
+                raise A.LeavesFragment("%s does not return a %s" % (md.id, meta_adt))
+            mode = it.deref_all(r[2][names.index(mode_field)])
+            if mode is None or mode[0] != "enum" or mode[1] != mode_adt or not it._modelled_enum(mode):
+                raise A.LeavesFragment("the returned %s is not a modelled %s" % (mode_field, mode_adt))
+            return it, ("returns", A.strip(mode))
+        outs = set(A.explore(run))
+        out.append(({m: assign[m][0] for m in members}, {m: A.strip(assign[m][1]()) for m in members}, outs))
+    return out
